@@ -378,6 +378,11 @@ def run_case(case):
                 mand, opt = model_select(exprs, pres_data)
             except ModelError:
                 stats.inc("expressions_with_invalid_ordering_skipped")
+                # the command is not issued; later commands may rely on the scan it would have done
+                if not (op[2] if k == "find" else op[3]):
+                    r = loopsim.run_bob(["archive", "-l", "scan"], arch, {}, workdir=top)
+                    if r.rc == 0:
+                        indexed = set(present)
                 continue
             argv_e = [render_expr(e) for e in exprs]
             if k == "find":
